@@ -12,7 +12,7 @@
            order, returned range (old_len, new_len); `idx` = _vectorization_labels/_vectorization_indices
      frontend/template/circuit.py:1476-1518 _group_edges
         -> `group_edges`: fold appending (w, sidx, tidx) to three aligned lists per key
-     ir/circuit.py:355-374 _collect_from_edges (source_var of the FIRST group of a source node: D3)
+     ir/circuit.py:353-378 _collect_from_edges (keyed by (source node, source variable) since fix D59)
         -> `merged`
      ir/circuit.py:881-952 _generate_edge_equation
         -> `dot_edge` (branch condition), `contrib_dot` (weight matrix over sorted unique indices built
@@ -146,22 +146,29 @@ Definition group_step_raw (ix : nat -> nat * nat) (gs0 : list grp) (e : edge) : 
 Definition group_edges_raw (ix : nat -> nat * nat) (es : list edge) : list grp := fold_left (group_step_raw ix) es [].
 Definition set_default (e : edge) : edge := Edge (esrc e) (etgt e) (Some (ew e)) (esv e).
 
-(* 3. _collect_from_edges for one target vector node: per source vector node (in order of its first group)
-      the source variable of the FIRST group and the concatenated lists *)
+(* 3. _collect_from_edges for one target vector node.  Since fix D59 the inputs are keyed by (source node, source
+      variable) (`by_var = true`): every entry has one source variable.  Before D59 (`by_var = false`) the key was the
+      source node alone and the entry kept the source variable of its FIRST group (D3).
+      Order of the entries: first appearance of the key (the code iterates the predecessors of the target node and, per
+      predecessor, its parallel graph edges, so entries of one source node are adjacent there; the entries are only
+      summed, and each is realised on its own, so the order is immaterial for the values). *)
 Record mrg := Mrg { msrc : nat; msv : bool; mw : list Qc; ms : list nat; mt : list nat }.
 Definition gsrc (g : grp) : nat := fst (fst (gk g)).
 Definition gsv (g : grp) : bool := snd (fst (gk g)).
 Definition gtgt (g : grp) : nat := snd (gk g).
 
-Fixpoint add_merge (l : list mrg) (g : grp) : list mrg :=
+Definition same_input (by_var : bool) (m : mrg) (g : grp) : bool :=
+  (msrc m =? gsrc g) && (negb by_var || Bool.eqb (msv m) (gsv g)).
+
+Fixpoint add_merge (by_var : bool) (l : list mrg) (g : grp) : list mrg :=
   match l with
   | [] => [Mrg (gsrc g) (gsv g) (gw g) (gs g) (gt g)]
-  | m :: rest => if msrc m =? gsrc g then Mrg (msrc m) (msv m) (mw m ++ gw g) (ms m ++ gs g) (mt m ++ gt g) :: rest
-                 else m :: add_merge rest g
+  | m :: rest => if same_input by_var m g then Mrg (msrc m) (msv m) (mw m ++ gw g) (ms m ++ gs g) (mt m ++ gt g) :: rest
+                 else m :: add_merge by_var rest g
   end.
 
-Definition merged (tj : nat) (groups : list grp) : list mrg :=
-  fold_left add_merge (filter (fun g => gtgt g =? tj) groups) [].
+Definition merged (by_var : bool) (tj : nat) (groups : list grp) : list mrg :=
+  fold_left (add_merge by_var) (filter (fun g => gtgt g =? tj) groups) [].
 
 (* 4. _generate_edge_equation: one contribution = association list target unit -> value (first match wins) *)
 Definition triple := (Qc * nat * nat)%type.                      (* weight, source unit, target unit *)
@@ -262,29 +269,30 @@ Definition compile (vec : bool) (c : circuit) : compiled :=
   Compiled vn ix (group_edges ix (cedges c)).
 
 (* input values of all units of target vector node tj *)
-Definition vn_inputs_gen (inp : list assoc -> Qc -> nat -> Qc) (vec : bool) (c : circuit) (st : list Qc) (k : compiled) (tj : nat)
+Definition vn_inputs_gen (inp : list assoc -> Qc -> nat -> Qc) (by_var : bool) (vec : bool) (c : circuit) (st : list Qc) (k : compiled) (tj : nat)
   : option (list Qc) :=
   let mem_t := members (cvn k) tj in
   let tsize := if vec then length mem_t else 0%nat in
-  let ml := merged tj (cgroups k) in
+  let ml := merged by_var tj (cgroups k) in
   match all_some (map (fun m =>
             let mem_s := members (cvn k) (msrc m) in
             contrib tsize (length mem_s) m (fun i => srcval c st (nth i mem_s 0%nat) (msv m))) ml) with
   | None => None
   | Some cs => Some (map (fun u => inp cs (crdef (node_cls c (nth u mem_t 0%nat))) u) (seq 0 (length mem_t)))
   end.
-Definition vn_inputs := vn_inputs_gen input_of.
+Definition vn_inputs := vn_inputs_gen input_of true.
 
-Definition impl_gen (inp : list assoc -> Qc -> nat -> Qc) (vec : bool) (c : circuit) (st : list Qc) : option (list Qc) :=
+Definition impl_gen (inp : list assoc -> Qc -> nat -> Qc) (by_var : bool) (vec : bool) (c : circuit) (st : list Qc) : option (list Qc) :=
   let k := compile vec c in
   if existsb (vn_err c) (cvn k) then None
-  else match all_some (map (vn_inputs_gen inp vec c st k) (seq 0 (length (cvn k)))) with
+  else match all_some (map (vn_inputs_gen inp by_var vec c st k) (seq 0 (length (cvn k)))) with
        | None => None
        | Some rv => Some (map (fun n => let '(j, i) := cidx k n in
                                         deriv_at c st n (nth i (nth j rv []) 0)) (seq 0 (length (cnodes c))))
        end.
-Definition impl := impl_gen input_of.                              (* the code as it is now *)
-Definition impl_before_D57 := impl_gen input_of_before_D57.        (* the code before fix D57 (D14) *)
+Definition impl := impl_gen input_of true.                         (* the code as it is now *)
+Definition impl_before_D59 := impl_gen input_of false.             (* the code before fix D59 (D3) *)
+Definition impl_before_D57 := impl_gen input_of_before_D57 false.  (* the code before fix D57 (D14) *)
 
 (* explicit Euler on the frontend state with either derivative *)
 Definition euler_step (h : Qc) (st d : list Qc) : list Qc := map (fun p => fst p + h * snd p) (combine st d).
@@ -327,21 +335,23 @@ Definition default_survives (c : circuit) : bool :=
 Definition no_constant_rhs (c : circuit) : bool :=
   forallb (fun nd => (count_cls c (ncls nd) <? 2) || negb (const_rhs (cf (nth (ncls nd) (ccls c) dcls)))) (cnodes c).
 
-(* D3: all edges between one source class and one target class read the same source variable *)
+(* D3 (repaired by D59; no longer part of `guard`): all edges between one source class and one target class read the same source variable *)
 Definition single_source_var (c : circuit) : bool :=
   forallb (fun e1 => forallb (fun e2 =>
      negb ((cls_of c (esrc e1) =? cls_of c (esrc e2)) && (cls_of c (etgt e1) =? cls_of c (etgt e2))) ||
      Bool.eqb (esv e1) (esv e2)) (cedges c)) (cedges c).
 
-(* D32: a class with a single unit does not feed >= 10 distinct units of one class without a repeated target *)
+(* D32: a class with a single unit does not feed, through one source variable, >= 10 distinct units of one class
+   without a repeated target *)
 Definition pair_targets (c : circuit) (e : edge) : list nat :=
-  map etgt (filter (fun e2 => (cls_of c (esrc e2) =? cls_of c (esrc e)) && (cls_of c (etgt e2) =? cls_of c (etgt e))) (cedges c)).
+  map etgt (filter (fun e2 => (cls_of c (esrc e2) =? cls_of c (esrc e)) && (cls_of c (etgt e2) =? cls_of c (etgt e)) &&
+                              Bool.eqb (esv e2) (esv e)) (cedges c)).
 Definition no_scalar_fanout (c : circuit) : bool :=
   forallb (fun e => negb (count_cls c (cls_of c (esrc e)) =? 1) || (length (pair_targets c e) <? 10) ||
                     negb (nodupb (pair_targets c e))) (cedges c).
 
 Definition guard (c : circuit) : bool :=
-  no_constant_rhs c && single_source_var c && no_scalar_fanout c.
+  no_constant_rhs c && no_scalar_fanout c.
 
 (* ------------------------------------------------------------------------------------------ comparison glue *)
 Fixpoint qlist_eqb (a b : list Qc) : bool :=
